@@ -15,7 +15,7 @@ RULES = {
     'C07.R6': 'graft structure of the composition every binary operator runs (shared with C02.R1/R2): operand edges copied with their own labels, copies paired with the edge targets, schema role by the operand node\'s leaf flag',
     'C07.R4': 'AffFunc operators are element-wise on both fields with the impl\'s own operator, left operand first; Neg negates both fields',
 }
-FLOORS = {'C07.R8': 15, 'C07.R7': 4, 'C07.R1': 33, 'C07.R3': 10, 'C07.R4': 17, 'C07.R2': 4, 'C07.R5': 7, 'C07.R6': 8}
+FLOORS = {'C07.R8': 15, 'C07.R7': 6, 'C07.R1': 33, 'C07.R3': 10, 'C07.R4': 17, 'C07.R2': 4, 'C07.R5': 7, 'C07.R6': 8}
 EXPLANATION = ('Sibling agreement over 4 operators x 8 ownership forms (+Neg) and the element-wise kernels; with C02.R1 (graft structure) the result is defined exactly '
                'when both operands are and its terminal is context.op(original), i.e. left.op(right).')
 DOES_NOT_DECIDE = 'nothing value-level beyond exact arithmetic; pruning on the fly is covered by C03'
